@@ -213,7 +213,8 @@ def run(ctx, quick):
             if mv[0] == "Err" and (mv[1][1] if isinstance(mv[1], tuple) else str(mv[1])) == code:
                 continue
             fam = ("boolean-promoted-to-string" if mt[i][2] is None else
-                   "null-operand-incompatible-bounds" if (label == "CBetween" and ops[0] == "lit:Null") else "other")
+                   "null-operand-incompatible-bounds" if ((label == "CBetween" and ops[0] == "lit:Null") or
+                                                          (label.startswith("deep:") and "between(null" in vtl.replace("(null)", "null"))) else "other")
             if label.startswith("deep:") and fam != "other":
                 label = "deep"
             ctx.violation(f"well-typed-fails:{fam}:{label}" + ("" if fam != "other" else ":" + "/".join(ops)),
@@ -224,6 +225,11 @@ def run(ctx, quick):
         et = [c[2] for c in d["comps"] if c[0] == "Me_9"][0]
         got = {row[0]: row[1] for row in d["rows"]}
         if mv[0] == "Err":
+            if mt[i][2] is None:   # typable only through the Boolean -> String promotion, which the value model does not perform
+                ctx.violation("value:boolean-promoted-to-string:" + ("deep" if label.startswith("deep:") else label),
+                              f"calc Me_9 := {vtl}: the engine returns values for an expression typable only through Boolean -> String; the value model has no such coercion",
+                              {"expr": vtl, "coq": coq, "engine": str(got)[:300]})
+                continue
             ctx.violation(f"value:{label}:{'/'.join(ops)}", f"calc Me_9 := {vtl}: engine returns values, model gives Err {mv[1]}",
                           {"expr": vtl, "coq": coq, "engine": str(got), "model": str(mv)})
             continue
